@@ -269,3 +269,135 @@ class ActiveTrailNodes(Contract):
 
 
 register(ActiveTrailNodes())
+
+
+# --------------------------------------------------------------------------------------------------- graph views
+class GetMarkovBlanket(Contract):
+    file = "pgmpy/base/DAG.py"
+    qual = "DAG.get_markov_blanket"
+
+    def variants(self, ex):
+        yield "any", {"self": new_graph("DAG", "g"), "node": atom("v")}, {}
+
+    def pre(self, ex, st, args):
+        return z3.And(wf_graph(args["self"]), N_(args["self"], args["node"].z))
+
+    def snapshot(self, ex, st, args):
+        return graph_snapshot(args["self"])
+
+    def post(self, ex, st, args, old, result):
+        if not isinstance(result, Coll):
+            return z3.BoolVal(False)
+        E, v = old["_E"], args["node"].z
+        x, c = fresh("x", Atom), fresh("c", Atom)
+        mem = mem_or_empty(result)
+        spec = lambda y: z3.And(y != v, z3.Or(E[y, v], E[v, y], z3.Exists([c], z3.And(E[v, c], E[y, c]))))
+        return z3.And(z3.ForAll([x], mem[x] == spec(x)), z3.BoolVal(result.nodup), graph_unchanged(args["self"], old))
+
+
+class BNGetMarkovBlanket(GetMarkovBlanket):
+    file = "pgmpy/models/BayesianNetwork.py"
+    qual = "BayesianNetwork.get_markov_blanket"
+
+    def variants(self, ex):
+        yield "any", {"self": new_graph("BayesianNetwork", "g"), "node": atom("v")}, {}
+
+
+class Moralize(Contract):
+    file = "pgmpy/base/DAG.py"
+    qual = "DAG.moralize"
+
+    def variants(self, ex):
+        yield "any", {"self": new_graph("DAG", "g")}, {}
+
+    def pre(self, ex, st, args):
+        return wf_graph(args["self"])
+
+    def snapshot(self, ex, st, args):
+        return graph_snapshot(args["self"])
+
+    def spec_edges(self, E, over):
+        c = fresh("c", Atom)
+        return lambda a, b: z3.Or(E[a, b], E[b, a], z3.And(a != b, z3.Exists([c], z3.And(over[c], E[a, c], E[b, c]))))
+
+    def post(self, ex, st, args, old, result):
+        from vf.pyvc.engine import Obj
+        if not isinstance(result, Obj) or result.fields.get("_directed", True):
+            return z3.BoolVal(False)
+        a, b = fresh("a", Atom), fresh("b", Atom)
+        f = self.spec_edges(old["_E"], old["_nodes"])
+        return z3.And(z3.ForAll([a], result.fields["_nodes"][a] == old["_nodes"][a]),
+                      z3.ForAll([a, b], result.fields["_E"][a, b] == f(a, b)),
+                      graph_unchanged(args["self"], old), z3.BoolVal(result is not args["self"]))
+
+    def inv0(self, ex, st, args, old, ghost):
+        mg = st.env["moral_graph"]
+        a, b = fresh("a", Atom), fresh("b", Atom)
+        f = self.spec_edges(old["_E"], ghost["done"])
+        return z3.And(z3.ForAll([a], mg.fields["_nodes"][a] == old["_nodes"][a]),
+                      z3.ForAll([a, b], mg.fields["_E"][a, b] == f(a, b)),
+                      graph_unchanged(args["self"], old))
+
+    invariants = property(lambda self: {0: self.inv0})
+
+
+class IsDConnected(Contract):
+    file = "pgmpy/base/DAG.py"
+    qual = "DAG.is_dconnected"
+
+    def variants(self, ex):
+        for olabel in ("None", "list", "set"):
+            observed = {"None": NONE, "list": atom_list("obs", "list"), "set": atom_list("obs", "set")}[olabel]
+            yield f"observed={olabel}", {"self": new_graph("DAG", "g"), "start": atom("start", "str"), "end": atom("end", "str"),
+                                         "observed": observed}, {}
+
+    def pre(self, ex, st, args):
+        g = args["self"]
+        x = fresh("x", Atom)
+        Z = ActiveTrailNodes.Z(args)
+        # latents empty: is_dconnected calls active_trail_nodes with the default include_latents=False
+        return z3.And(wf_graph(g), N_(g, args["start"].z), z3.ForAll([x], z3.Implies(Z[x], N_(g, x))),
+                      z3.ForAll([x], z3.Not(g.fields["latents"].mem[x])))
+
+    def snapshot(self, ex, st, args):
+        return graph_snapshot(args["self"])
+
+    def post(self, ex, st, args, old, result):
+        if not isinstance(result, Scalar):
+            return z3.BoolVal(False)
+        atn = REGISTRY_ATN
+        th = atn.theory(ex, {"observed": args["observed"]}, old["_E"])
+        s, e = args["start"].z, args["end"].z
+        return result.z == z3.And(z3.Not(th.Z[e]), z3.Or(th.R(s, e, UP), th.R(s, e, DOWN)))
+
+
+class GetAncestralGraph(Contract):
+    file = "pgmpy/base/DAG.py"
+    qual = "DAG.get_ancestral_graph"
+
+    def variants(self, ex):
+        yield "nodes=list", {"self": new_graph("DAG", "g"), "nodes": atom_list("S", "list")}, {}
+
+    def pre(self, ex, st, args):
+        g = args["self"]
+        x = fresh("x", Atom)
+        return z3.And(wf_graph(g), z3.ForAll([x], z3.Implies(mem_or_empty(args["nodes"])[x], N_(g, x))))
+
+    def snapshot(self, ex, st, args):
+        return graph_snapshot(args["self"])
+
+    def post(self, ex, st, args, old, result):
+        from vf.pyvc.engine import Obj
+        if not isinstance(result, Obj):
+            return z3.BoolVal(False)
+        A = anc_spec(ex, old["_E"], mem_or_empty(args["nodes"]))
+        a, b = fresh("a", Atom), fresh("b", Atom)
+        return z3.And(z3.ForAll([a], result.fields["_nodes"][a] == A[a]),
+                      z3.ForAll([a, b], result.fields["_E"][a, b] == z3.And(old["_E"][a, b], A[a], A[b])),
+                      graph_unchanged(args["self"], old))
+
+
+REGISTRY_ATN = ActiveTrailNodes()
+register(REGISTRY_ATN)
+for _c in (GetMarkovBlanket(), BNGetMarkovBlanket(), Moralize(), IsDConnected(), GetAncestralGraph()):
+    register(_c)
